@@ -64,6 +64,21 @@ theorem C04_delete_isolated (g : G) (id : Nat) (hn : g.hasNode id = true) (hd : 
   have h2 := List.filter_eq_nil_iff.mp this r hr
   simpa using h2
 
+/-- relationships are deleted by **identity**: of several parallel (even equal-looking)
+relationships exactly the one with the handle goes, every other one stays — in the
+relationship list, hence in both adjacency directions of the logical graph -/
+theorem C04_delete_rel_by_identity (g : G) (id : Nat) :
+    (∀ r ∈ g.rels, r.id ≠ id → r ∈ (g.delRel id).rels)
+    ∧ (∀ r ∈ (g.delRel id).rels, r ∈ g.rels ∧ r.id ≠ id)
+    ∧ (g.delRel id).nodes = g.nodes := by
+  refine ⟨?_, ?_, rfl⟩
+  · intro r hr hne
+    show r ∈ g.rels.filter (·.id ≠ id)
+    simp [List.mem_filter, hr, hne]
+  · intro r hr
+    have hr' : r ∈ g.rels.filter (·.id ≠ id) := hr
+    simpa [List.mem_filter] using hr'
+
 /-! ### SET / REMOVE -/
 
 /-- set-then-read: after `SET x.k = v` on a node, `x.k` reads `v` (and `null` when `v` is
@@ -260,6 +275,12 @@ theorem C04_plain_delete_refused_on_witness :
 /-! ### non-vacuity -/
 
 example : gAB.wf = true := by decide
+/-- three parallel `:T0` relationships with k0 = 1, 2, 3: `MATCH (a:L0)-[r:T0]->(b:L1) WHERE r.k0 = 2 DELETE r`
+leaves exactly the other two -/
+example : (okOf (exec [] ⟨[⟨1, [0], []⟩, ⟨2, [1], []⟩],
+      [⟨1, 1, 2, 0, [(0, .int 1)]⟩, ⟨2, 1, 2, 0, [(0, .int 2)]⟩, ⟨3, 1, 2, 0, [(0, .int 3)]⟩]⟩
+    ⟨[.matchR 1 [0] 5 0 2 [1], .filter (.bin .eq (.prop 5 0) (.lit (.int 2))), .delete false [5]], none⟩)).map
+      (fun r => r.1.rels.map (·.id)) = some [1, 3] := by decide
 /-- the seeded-change witness C04-b: `UNWIND [1,2,3] AS x MERGE (s:L0 {k0: 0}) ON CREATE SET s.k0 = 1,
 s.k1 = x RETURN s` creates three nodes and returns three different handles -/
 example : (okOf (exec [] G.empty
